@@ -227,6 +227,25 @@ def deposed_runahead(m, w, old=N1, new=N2, third=N3, tail=3, newk=2):
     return w
 
 
+def late_vote5(m, w, cand=N1):
+    """5 voters. `cand` wins its election with the votes of n2 and n3; the vote of n4 is still in flight and n5 never
+    heard the request. Then `cand` is cut off from n2, n3 and n5 (only the link to n4 is left, with the late vote on it)."""
+    ids = [n for n, _ in w.nodes]
+    n2, n3, n4, n5 = ids[1], ids[2], ids[3], ids[4]
+    w = m.connect_all(w)
+    w = m.cut(w, cand, n5)
+    w = m.do(w, ('T', cand, m.cfg.tmin + 0.001))
+    for v in (n2, n3, n4):
+        w = m.do(w, ('D', cand, v))
+    for v in (n2, n3):
+        w = m.do(w, ('D', v, cand))
+    if not m.summary(w, cand).leader_flag or not w.queue(n4, cand):
+        m.seed_shape_ok = False
+    for v in (n2, n3):
+        w = m.cut(w, cand, v)
+    return w
+
+
 def vote_requested(m, w, cand=N1, voter=N2, other=N3):
     """`cand` campaigns; its vote request to `voter` is in flight; `other` never hears `cand` (link down)
     and is connected to `voter` only: it can become a second candidate of the same term."""
@@ -712,7 +731,7 @@ def candidates(m, w, who=(N1, N2)):
     return w
 
 
-SEEDS = dict(m_lagsnap_added=m_lagsnap_added, deposed_runahead=deposed_runahead, forwarded_acked=forwarded_acked, m_readd_lateack=m_readd_lateack, vote_requested=vote_requested, forwarded_stale=forwarded_stale, reelected_cache3=reelected_cache3, deposed_obs=deposed_obs, voted=voted, stalled_old_code=stalled_old_code, reelected5=reelected5, stale_reset5=stale_reset5, stale_vote5=stale_vote5, stale_snapshot=stale_snapshot, ahead_full=ahead_full, fig8_full=fig8_full, candidates=candidates, battery_lagsnap=battery_lagsnap, ahead=ahead, lagging_newleader=lagging_newleader, m_deposed=m_deposed, split=split, version_snap=version_snap, fresh=fresh, steady=steady, lagging=lagging, lagging_snap=lagging_snap, deposed=deposed,
+SEEDS = dict(late_vote5=late_vote5, m_lagsnap_added=m_lagsnap_added, deposed_runahead=deposed_runahead, forwarded_acked=forwarded_acked, m_readd_lateack=m_readd_lateack, vote_requested=vote_requested, forwarded_stale=forwarded_stale, reelected_cache3=reelected_cache3, deposed_obs=deposed_obs, voted=voted, stalled_old_code=stalled_old_code, reelected5=reelected5, stale_reset5=stale_reset5, stale_vote5=stale_vote5, stale_snapshot=stale_snapshot, ahead_full=ahead_full, fig8_full=fig8_full, candidates=candidates, battery_lagsnap=battery_lagsnap, ahead=ahead, lagging_newleader=lagging_newleader, m_deposed=m_deposed, split=split, version_snap=version_snap, fresh=fresh, steady=steady, lagging=lagging, lagging_snap=lagging_snap, deposed=deposed,
              deposed_snap=deposed_snap, deposed_twice=deposed_twice, pending=pending, reconnect_pipeline=reconnect_pipeline,
              forwarded=forwarded, fig8=fig8)
 
